@@ -128,6 +128,16 @@ def generators(prop):
     return PROPS[prop].get('generators', [])
 
 
+def all_generators():
+    seen, out = set(), []
+    for p in sorted(PROPS):
+        for g in PROPS[p].get('generators', []):
+            if g['name'] not in seen:
+                seen.add(g['name'])
+                out.append(g)
+    return out
+
+
 TRUSTED = [
     "Lean 4.33.0 kernel (leanchecker re-check in the thorough tier); axioms per theorem listed under coverage.theorems",
     "hand-written Lean model of the Go code; tied to /repo only through the differential correspondence run counted in traces_validated_against_impl",
